@@ -22,6 +22,7 @@ use crate::path::{ParseS3PathError, S3Path};
 use crate::protocol::S3Request;
 use crate::route::S3Route;
 use crate::s3_trait::S3;
+use crate::sig_v4::{PostPolicy, PostPolicyViolation};
 use crate::stream::VecByteStream;
 use crate::stream::aggregate_unlimited;
 
@@ -355,11 +356,28 @@ async fn prepare(req: &mut Request, ccx: &CallContext<'_>) -> S3Result<Prepare> 
             if req.method == Method::POST {
                 match s3_path {
                     S3Path::Root => return Err(unknown_operation()),
-                    S3Path::Bucket { .. } => {
+                    S3Path::Bucket { bucket } => {
                         // POST object
                         debug!(?multipart);
+
+                        // the upload has to satisfy the (signed) policy of the form
+                        let policy = multipart
+                            .find_field_value("policy")
+                            .and_then(|policy| PostPolicy::from_base64(policy).ok())
+                            .ok_or_else(|| s3_error!(InvalidPolicyDocument))?;
+                        policy
+                            .check_fields(time::OffsetDateTime::now_utc(), bucket, multipart.fields())
+                            .map_err(|e| s3_error!(AccessDenied, "{e}"))?;
+
                         let file_stream = multipart.take_file_stream().expect("missing file stream");
                         let vec_bytes = aggregate_unlimited(file_stream).await.map_err(S3Error::internal_error)?;
+
+                        let file_len = vec_bytes.iter().map(|b| b.len() as u64).sum::<u64>();
+                        policy.check_content_length(file_len).map_err(|e| match e {
+                            PostPolicyViolation::TooSmall => s3_error!(EntityTooSmall, "{e}"),
+                            _ => s3_error!(EntityTooLarge, "{e}"),
+                        })?;
+
                         let vec_stream = VecByteStream::new(vec_bytes);
                         req.s3ext.vec_stream = Some(vec_stream);
                         break 'resolve (&PutObject as &'static dyn Operation, false);
